@@ -175,6 +175,7 @@ func c11Property(rt *rapid.T) {
 	if fail != "" {
 		rt.Fatalf("%s\n%s", fail, c)
 	}
+	encSnapshot := append([]byte(nil), enc...)
 	// same representation
 	dest := reflect.New(topDestType(c.rep))
 	wasNull, fail := decodeInto(codec, enc, dest.Interface(), c.v)
@@ -236,6 +237,13 @@ func c11Property(rt *rapid.T) {
 		}
 		if want, err := datacodec.PreferredGoType(c.dt); err == nil && reflect.TypeOf(any) != want {
 			rt.Fatalf("untyped decode yields %T, documented preferred type is %v\n%s", any, want, c)
+		}
+	}
+	// the bytes Encode returned belong to the caller as well: encoding another value with the same codec must not change
+	// them (an encoder that returns a view of a pooled or reused buffer fails here)
+	if other := gen.DrawAV(rt, c.dt, c.rep, c.v, false, "otherValue"); true {
+		if _, err := codec.Encode(gen.ToGo(other, c.dt, c.rep).Interface(), c.v); err == nil && !bytes.Equal(enc, encSnapshot) {
+			rt.Fatalf("the bytes returned by Encode changed when another value was encoded afterwards: %x became %x\n%s", clipBytes(encSnapshot), clipBytes(enc), c)
 		}
 	}
 	// the caller owns what Decode handed out: after it has overwritten the decoded values in place, decoding the same
